@@ -21,7 +21,7 @@ from ..dataflow import flow_of
 from ..engine import Context, Reporter
 from ..model import AnalysisError, ClassInfo, FuncInfo, dotted, norm_text, walk_no_nested
 from ..records import Tagger
-from ..util import call_arg, calls_in, calls_in_node, const_value, forced_atoms, path_facts, unparse
+from ..util import call_arg, calls_in, calls_in_node, const_value, forced_atoms, path_facts, split_cond, unparse
 
 PROP = "C13"
 EXPLANATION = (
@@ -68,6 +68,34 @@ def dispatcher_fn(ctx: Context, wrapper: FuncInfo) -> FuncInfo:
     raise AnalysisError("C13: dispatcher (callable-returning helper used by the wrapper) not found")
 
 
+_IDENTITY = {"numpy.asarray", "numpy.asanyarray", "numpy.atleast_2d", "numpy.ascontiguousarray", "numpy.array", "builtins.list", "builtins.tuple", "builtins.iter"}
+
+
+def _is_batch_param(ctx: Context, wrapper: FuncInfo, e: Optional[ast.expr], at) -> bool:
+    """`e` is the wrapper's batch parameter, possibly through value-preserving
+    conversions (asarray, atleast_2d, list).  A selection / reordering is a
+    violation; anything else is undecided."""
+    if e is None:
+        return False
+    rx = ExprResolver(wrapper.node).resolve(e, at)
+    while isinstance(rx, ast.Call) and (ctx.res.external_name(wrapper, rx) or "") in _IDENTITY and rx.args:
+        rx = rx.args[0]
+    if isinstance(rx, ast.Name):
+        flow = flow_of(wrapper.node)
+        ds = flow.reaching(at, rx.id)
+        if rx.id in wrapper.params and all(d.kind == "param" for d in ds):
+            return True
+        # re-bound parameter: every definition must itself be a conversion of the parameter
+        if ds and all(d.kind == "assign" and d.value is not None and not d.path and _is_batch_param(ctx, wrapper, d.value, d.node) for d in ds if d.kind != "param"):
+            return True
+        return False
+    if any(isinstance(x, (ast.Subscript, ast.ListComp, ast.GeneratorExp)) for x in ast.walk(rx)) or any(
+            isinstance(x, ast.Call) and dotted(x.func).split(".")[-1] in ("unique", "sorted", "sort", "permutation", "choice", "take", "compress", "reversed", "flip", "set", "delete")
+            for x in ast.walk(rx)):
+        return False
+    raise AnalysisError(f"C13.a: cannot decide whether `{unparse(rx)[:60]}` is the batch handed to {wrapper.short}")
+
+
 def rule_a(ctx: Context, R: Reporter, wrapper: FuncInfo, disp: FuncInfo):
     flow = flow_of(disp.node)
     rets = [n for n in flow.cfg.stmt_nodes() if n.kind == "stmt" and isinstance(n.stmt, ast.Return) and n.stmt.value is not None]
@@ -89,7 +117,56 @@ def rule_a(ctx: Context, R: Reporter, wrapper: FuncInfo, disp: FuncInfo):
             first = c.args[0] if c.args else None
             R.check("C13.a", "argument order is (likelihood, points)", first is not None and _is_user_like_ref(first) and len(c.args) == 2, wrapper, c,
                     msg=f"{wrapper.short}: `{unparse(c)[:70]}`", key=f"mapper-args:{norm_text(c.func)[:40]}")
+            # the mapped points are the batch the wrapper was given: same rows, same order
+            pts = c.args[1] if len(c.args) == 2 else None
+            wflow = flow_of(wrapper.node)
+            wn = wflow.node_containing(c)
+            batch_ok = _is_batch_param(ctx, wrapper, pts, wn)
+            R.check("C13.a", "the mapped points are the wrapper's batch argument itself", batch_ok, wrapper, c,
+                    msg=f"{wrapper.short}: `{unparse(c)[:70]}` maps the likelihood over `{unparse(pts) if pts is not None else '?'}`, not over the batch it was given: a permuted, "
+                        f"de-duplicated or sub-selected batch changes what the user function sees (and how often) depending on the evaluation mode", key=f"mapper-batch:{norm_text(c.func)[:40]}")
     R.floor("C13.a", "map sites in the wrapper", n, 2)
+    # direct (vectorised) call: on the batch itself
+    for c in calls_in(wrapper.node):
+        if _is_user_like_ref(c.func):
+            a0 = c.args[0] if c.args else None
+            wflow = flow_of(wrapper.node)
+            wn = wflow.node_containing(c)
+            ok = _is_batch_param(ctx, wrapper, a0, wn) and len(c.args) == 1 and not c.keywords
+            R.check("C13.a", "the vectorised call receives the wrapper's batch argument itself", ok, wrapper, c,
+                    msg=f"{wrapper.short}: `{unparse(c)[:70]}` does not pass the batch it was given", key="vector-batch")
+    # mode precedence: a vectorised likelihood is called once on the whole batch whatever else is configured;
+    # every pointwise map site is reachable only when `vectorize` is false
+    wcfg = flow_of(wrapper.node).cfg
+    from ..util import conds_holding_at as _cha
+
+    def _facts(node):
+        out = []
+        for (t, pol) in _cha(wcfg, node):
+            for (atom, p) in split_cond(t, pol):
+                out.append((norm_text(ExprResolver(wrapper.node).resolve(atom, node)), p))
+        return out
+
+    for c in calls_in(wrapper.node):
+        nd_ = flow_of(wrapper.node).node_containing(c)
+        if nd_ is None:
+            continue
+        if any(_is_user_like_ref(a) for a in c.args):
+            fs = _facts(nd_)
+            ok = any(txt.endswith("config.vectorize") and p is False for (txt, p) in fs)
+            R.check("C13.a", "pointwise map sites are reached only when `vectorize` is false", ok, wrapper, c,
+                    msg=f"{wrapper.short}: `{unparse(c)[:60]}` is reachable with config.vectorize set (conditions here: {fs}): a vectorised likelihood is then called one point at a "
+                        f"time (a valid option combination misbehaves)", key=f"mode-precedence:{norm_text(c.func)[:40]}")
+        elif _is_user_like_ref(c.func):
+            fs = _facts(nd_)
+            ok = any(txt.endswith("config.vectorize") and p is True for (txt, p) in fs) and not any("pool" in txt for (txt, p) in fs)
+            R.check("C13.a", "the whole-batch call is selected by `vectorize` alone", ok, wrapper, c,
+                    msg=f"{wrapper.short}: `{unparse(c)[:60]}` is guarded by {fs}: the vectorised path must not depend on the pool setting", key="mode-precedence:vector")
+    # the evaluation strategy consumes no random numbers
+    rng_sites = [s_ for s_ in ctx.rng.draws() + ctx.rng.seeds() if s_.func in (wrapper, disp)]
+    R.check("C13.a", "the likelihood wrapper and dispatcher consume no random numbers", not rng_sites, wrapper, rng_sites[0].call if rng_sites else wrapper.node,
+            msg=f"{wrapper.short}: `{unparse(rng_sites[0].call)[:60] if rng_sites else ''}` draws from / seeds the global generator inside the evaluation wrapper: the random stream "
+                f"then depends on which evaluation mode (pool / vectorised / plain) is configured", key="wrapper-no-rng")
     # results consumed positionally: no sorted()/set()/dict over results
     for c in calls_in(wrapper.node):
         nm = dotted(c.func)
